@@ -48,14 +48,15 @@ type Edge struct {
 }
 
 type CB struct {
-	Seq   int
-	T     time.Duration
-	Inst  int
-	Obj   int
-	Kind  string // promote-enter | promote-exit | demote-enter | demote-exit
-	Token string
-	Term  int // index into instRT.terms for promote events
-	Gid   uint64
+	TermCtxDone int // demote-enter only: 1 = the context of the object's latest term was done at entry, 0 = not done, -1 = no term
+	Seq         int
+	T           time.Duration
+	Inst        int
+	Obj         int
+	Kind        string // promote-enter | promote-exit | demote-enter | demote-exit
+	Token       string
+	Term        int // index into instRT.terms for promote events
+	Gid         uint64
 }
 
 type Term struct {
